@@ -710,19 +710,29 @@ def _weight(c):
   return w
 
 
+def _py_only(c):
+  b = c.get('base', c)
+  if b.get('kind') != 'produce' or b['payloads'] == 'default':
+    return False
+  return len(b['payloads']) > 50 or any(p.get('n', len(p.get('hex', '')) // 2) > 2048 for p in b['payloads'])
+
+
 def _spread(cases):
-  """Heavy cases first in their shard, one per shard, heaviest shards first (the shards are compiled in parallel)."""
-  heavy = sorted([c for c in cases if _weight(c) > 4000], key=_weight, reverse=True)
+  """Light cases first; one heavy case at the end of each shard-sized chunk (the shards are compiled in parallel);
+  the cases that are too large for Coq (Python parser only) at the very end."""
+  last = [c for c in cases if _py_only(c)]
+  lid = set(id(c) for c in last)
+  heavy = sorted([c for c in cases if id(c) not in lid and _weight(c) > 4000], key=_weight, reverse=True)
   hid = set(id(c) for c in heavy)
-  light = [c for c in cases if id(c) not in hid]
+  light = [c for c in cases if id(c) not in hid and id(c) not in lid]
   out = []
   per = max(1, SHARD - 1)
   while heavy or light:
-    if heavy:
-      out.append(heavy.pop(0))
     out.extend(light[:per])
     light = light[per:]
-  return out
+    if heavy:
+      out.append(heavy.pop(0))
+  return out + last
 
 
 def search_cases(tier, seed, diverging):
